@@ -54,7 +54,7 @@ def sim(ctx, name, num, depth, keys=3, ids=3, fnames=2, hooks=2, timeout=900):
     mc = mc_module(name, "KeyspaceSim", keys, ids, ALL_GEOS, fnames, ALL_VALS, ALL_PATS, hooks)
     cfg = ("SPECIFICATION SimSpec\n" + cfg_consts(MaxHist=depth, WithHooks=True, **SUBST) + "INVARIANT StoredForms\n")
     workers = 8
-    r = ctx.tlc(name, ["Keyspace.tla", "KeyspaceSim.tla"], mc, cfg, workers=workers,
+    r = ctx.tlc(name, ["Keyspace.tla", "KeyspaceRand.tla", "KeyspaceSim.tla"], mc, cfg, workers=workers,
                 simulate=max(1, num // workers), depth=depth + 5, timeout=timeout)
     if not r["ok"]:
         raise common.Infra("KeyspaceSim violates %s: see %s" % (r["violated"], r["out"]))
